@@ -775,7 +775,9 @@ theorem wf_asElem_step (W : World) (f : Nat) (ih : WfAt W f) :
   · exact ih.for_ _ _ _ _ _ _ hctx ht
   · split
     · simp only [TplNode] at ht
-      exact ih.list _ _ _ hctx ht.2.2
+      split
+      · exact ih.tmpl _ _ _ _ hctx ht.2.1 ht.2.2
+      · exact ih.list _ _ _ hctx ht.2.2
     · exact ih.plain _ _ _ _ _ hctx ht
 
 
